@@ -1,4 +1,108 @@
-(* Property theorems for C02 -- statements only; proofs are `exact` of lemmas. *)
-From Coq Require Import ZArith List.
-From GD Require Import C02.Model.
-Theorem placeholder : True. Proof. exact I. Qed.
+(* Property theorems for C02 -- statements only; proofs are `exact` of lemmas.
+   Model: C02/Model.v.  The model carries one flag per known defect site (Gen/C02Cfg.v says how
+   the checked tree sets them), so the same statements hold for the pinned and for a repaired tree. *)
+From Coq Require Import ZArith List Bool.
+From GD Require Import C02.Model C02.Slices C02.CodecProofs C02.HistoryProofs C02.Refutations Gen.C02Cfg.
+Import ListNotations.
+Local Open Scope Z_scope.
+
+(* ---- the full statement and its status on the pinned tree *)
+Definition history_independent_statement := Refutations.history_independent_statement.
+
+(* refuted for the pinned tree (cfg0 = every repair flag false), libbz2 with a 4-byte window *)
+Theorem history_independent_refuted : ~ history_independent_statement dec4 cfg0.
+Proof. exact statement_refuted. Qed.
+
+(* one witness per defect region; the second component shows the repaired model is right there *)
+Theorem refuted_bzip2_seek_before_window :
+  ask (mkdb cfg0 EBz 0 []) [CGet 0 (Some 9) 2] 0 1 2 = RUB /\
+  ask (mkdb cfg_all EBz 0 []) [CGet 0 (Some 9) 2] 0 1 2 = RData [1; 2].
+Proof. exact bz_backward_witness. Qed.
+
+Theorem refuted_bzip2_read_reaching_eof :
+  ask (mkdb cfg0 EBz 0 []) [CGet 0 (Some 8) 1; CGet 0 (Some 9) 9] 0 9 2 = RData [] /\
+  spec_window (mkdb cfg0 EBz 0 []) 0 9 2 = [9; 10] /\
+  ask (mkdb cfg_all EBz 0 []) [CGet 0 (Some 8) 1; CGet 0 (Some 9) 9] 0 9 2 = RData [9; 10].
+Proof. exact bz_eof_witness. Qed.
+
+Theorem refuted_phase_minus_one_is_here :
+  ask (mkdb cfg0 ERaw 0 [FPhase 0 (-1)]) [CGet 0 (Some 5) 2] 1 0 3 = RData [7; 8; 9] /\
+  ask (mkdb cfg0 ERaw 0 [FPhase 0 (-1)]) [] 1 0 3 = RData [0; 1; 2] /\
+  spec_window (mkdb cfg0 ERaw 0 [FPhase 0 (-1)]) 1 0 3 = [0; 0; 1] /\
+  ask (mkdb cfg_all ERaw 0 [FPhase 0 (-1)]) [CGet 0 (Some 5) 2] 1 0 3 = RData [0; 0; 1].
+Proof. exact phase_here_witness. Qed.
+
+Theorem refuted_text_pseudo_position :
+  ask (mkdb cfg0 ETxt 3 []) [CGet 0 (Some 8) 1; CGet 0 (Some 0) 1] 0 7 1 = RData [] /\
+  spec_window (mkdb cfg0 ETxt 3 []) 0 7 1 = [4] /\
+  ask (mkdb cfg_all ETxt 3 []) [CGet 0 (Some 8) 1; CGet 0 (Some 0) 1] 0 7 1 = RData [4].
+Proof. exact text_pseudo_witness. Qed.
+
+Theorem refuted_recurse_level_leak :
+  ask (mkdb cfg0 ERaw 0 []) (repeat (CSeek 0 (-5) WSet) 31) 0 0 2 = RErr E_RECURSE /\
+  ask (mkdb cfg_all ERaw 0 []) (repeat (CSeek 0 (-5) WSet) 31) 0 0 2 = RData [0; 1].
+Proof. exact leak_witness. Qed.
+
+Theorem refuted_all_padding_read :
+  ask (mkdb cfg0 ERaw 0 [FPhase 0 (-3)]) [] 1 0 2 = RErr E_RANGE /\
+  ask (mkdb cfg0 ERaw 0 [FPhase 0 (-3)]) [] 1 0 5 = RData [0; 0; 0; 0; 1] /\
+  ask (mkdb cfg_all ERaw 0 [FPhase 0 (-3)]) [] 1 0 2 = RData [0; 0].
+Proof. exact negseek_witness. Qed.
+
+(* ---- what holds (partial): cursor level, every history, no size bound *)
+
+(* raw/gzip and text cursors: after ANY history of seek;read pairs on an open file whose cursor is
+   coherent (Coh: positioned, or carrying a pseudo position -- for text only when repaired), the
+   samples delivered for (count, n) are the ones the whole decoded stream dictates *)
+Theorem cursor_history_independent_partial :
+  forall dec c rd h st count n,
+    wf_rd rd -> plain_enc rd -> Coh c rd st -> hist_nonneg h -> 0 <= count -> 0 <= n ->
+    exists st1 st2 bs cnt,
+      cursor_run dec c rd st h = Some st1 /\
+      seek_read dec c rd st1 count n = Some (st2, bs, cnt) /\
+      cnt = pure_count rd count n /\ firstn (Z.to_nat (cnt * rd_size rd)) bs = pure_bytes rd count n.
+Proof. exact cursor_history_independent. Qed.
+
+(* the invariant is kept by every such history, and holds right after opening *)
+Theorem cursor_invariant :
+  forall dec c rd, wf_rd rd -> plain_enc rd ->
+    forall h st, Coh c rd st -> hist_nonneg h -> exists st', cursor_run dec c rd st h = Some st' /\ Coh c rd st'.
+Proof. exact cursor_run_coh. Qed.
+
+Theorem opened_is_coherent : forall c rd, wf_rd rd -> Coh c rd st_opened.
+Proof. exact opened_coh. Qed.
+
+(* bzip2 window, for every decoder satisfying the libbz2 contract dec_ok and every buffer size:
+   a seek establishes the position min(count, nsamp) and a coherent window -- EXCEPT when the
+   target lies before the current window and the tree does not restart the stream (the excluded
+   region is exactly `b_base st > count * size`) *)
+Theorem bzip2_seek_partial :
+  forall BUF dec c rd st count,
+    wf_rd rd -> rd_enc rd = EBz -> dec_ok BUF dec (rd_bytes rd) -> Coh c rd st -> 0 <= count ->
+    (fix_bz_rewind c = true \/ b_base st <= count * rd_size rd \/ r_fpos st = count) ->
+    exists st' p', bz_seek dec c (rd_bytes rd) (rd_size rd) st count = Some (st', p') /\
+      At rd st' p' /\ p' = Z.min count (nsamp rd).
+Proof. exact bz_seek_spec. Qed.
+
+(* handle level: the invariant (recurse_level = 0, every open cursor coherent) holds initially and
+   is preserved by closing any set of RAW files in any order -- gd_raw_close/gd_flush of everything
+   and every choice the LRU auto-close of gd_open_limit can make *)
+Theorem inv_initial : forall d, Inv d (init d).
+Proof. exact inv_init. Qed.
+Theorem inv_auto_close_any : forall dec d s r, Inv d s -> Inv d (fst (step dec d s (CAuto r))).
+Proof. exact inv_auto_close. Qed.
+Theorem inv_close_everything : forall dec d s, Inv d s -> Inv d (fst (step dec d s (CClose None))).
+Proof. exact inv_close_all. Qed.
+
+(* the hypotheses above are satisfiable *)
+Example hypotheses_satisfiable :
+  wf_rd {| rd_enc := ERaw; rd_size := 2; rd_sgn := false; rd_bytes := bytes12; rd_foff := 0 |} /\
+  plain_enc {| rd_enc := ERaw; rd_size := 2; rd_sgn := false; rd_bytes := bytes12; rd_foff := 0 |} /\
+  hist_nonneg [(3, 2); (0, 9)] /\ dec_ok 4 (dec_bz2 4 true) bytes12.
+Proof. exact hyps_ok. Qed.
+
+(* the tree being checked (flags regenerated from the C source by translate/tr_c02cfg.py) *)
+Theorem tree_flags_known : tree_cfg = cfg0 \/ exists b, b = true /\
+  (fix_bz_rewind tree_cfg = b \/ fix_bz_eof tree_cfg = b \/ fix_here tree_cfg = b \/
+   fix_text_pseudo tree_cfg = b \/ fix_leak tree_cfg = b \/ fix_negseek tree_cfg = b).
+Proof. exact tree_flags. Qed.
